@@ -11,14 +11,18 @@ import (
 
 // C14 case: constructor inputs and a list of operations on the generator.
 type c14Op struct {
-	Op    string `json:"op"`              // read | store | restore | restorebytes
-	N     int    `json:"n,omitempty"`     // read size
+	Op    string `json:"op"`              // read | store | restore | restorebytes | fork | derived
+	N     int    `json:"n,omitempty"`     // read size; derived: UintN argument
 	State string `json:"state,omitempty"` // restorebytes: hex state
+	Nil   bool   `json:"nil,omitempty"`   // read: pass a nil buffer (N must be 0)
+	K     int    `json:"k,omitempty"`     // derived: Permutation / SubPermutation size
 }
 type c14In struct {
 	Seed string  `json:"seed"`
 	Cust string  `json:"cust"`
 	Ops  []c14Op `json:"ops"`
+	// NilArgs: seed and customizer are passed as nil slices (Seed and Cust must be empty)
+	NilArgs bool `json:"nilargs,omitempty"`
 }
 
 func init() {
@@ -29,7 +33,7 @@ func init() {
 		PropCheck: "prop_bad_ids",
 		Gen:    c14Gen,
 		Run:    c14Run,
-		Rule:   "structured op sequences (read sizes around the 64-byte block and path boundary, Store/Restore at every offset, crafted states with large counters, constructor/restore length errors); a case is non-trivial if it produced at least one output byte or exercised a rejection; distinct by (seed, customizer, op list)",
+		Rule:   "structured op sequences (read sizes around the 64-byte block and path boundary incl. nil and 255..257 / 1024 / 4096-byte buffers, Store/Restore at every offset, crafted states with large counters, constructor/restore length errors incl. nil, lengths that are valid only modulo 256, and a rejected restore followed by more output of the untouched generator); fork: a generator restored from a checkpoint runs NEXT TO the original, which keeps being used, both must give the same bytes under different read chunkings and the same Store(); derived: UintN / Permutation / SubPermutation / Shuffle on the generator and on one restored from the checkpoint taken just before must agree, and the raw stream afterwards must continue at the position Store() reports; every buffer given to the constructor / RestoreChacha20PRG must come back unmodified and is overwritten by the harness right after the call; states returned by Store() are kept un-copied and re-read at the end; a case is non-trivial if it produced at least one output byte or exercised a rejection; distinct by (seed, customizer, op list)",
 		Shard:  20,
 	})
 }
@@ -55,24 +59,88 @@ func c14Gen(tier string, r *rand.Rand) []Case {
 			ops = append(ops, c14Op{Op: "read", N: s})
 		}
 		ops = append(ops, c14Op{Op: "store"})
-		cs = append(cs, mkcase("store-offset", c14In{hx(seed), hx(cust), ops}))
+		cs = append(cs, mkcase("store-offset", c14In{Seed: hx(seed), Cust: hx(cust), Ops: ops}))
 	}
 	// constructor length grid
 	for sl := 30; sl <= 34; sl++ {
 		for cl := 0; cl <= 14; cl++ {
-			cs = append(cs, mkcase("ctor-lengths", c14In{hx(rbytes(r, sl)), hx(rbytes(r, cl)), []c14Op{{Op: "read", N: 70}, {Op: "store"}}}))
+			cs = append(cs, mkcase("ctor-lengths", c14In{Seed: hx(rbytes(r, sl)), Cust: hx(rbytes(r, cl)), Ops: []c14Op{{Op: "read", N: 70}, {Op: "store"}}}))
 		}
 	}
 	// restore from crafted state bytes: lengths and large counters
 	for l := 49; l <= 55; l++ {
-		cs = append(cs, mkcase("restore-lengths", c14In{hx(rbytes(r, 32)), "", []c14Op{{Op: "restorebytes", State: hx(rbytes(r, l))}}}))
+		cs = append(cs, mkcase("restore-lengths", c14In{Seed: hx(rbytes(r, 32)), Ops: []c14Op{{Op: "restorebytes", State: hx(rbytes(r, l))}}}))
 	}
 	counters := []uint64{0, 1, 63, 64, 65, 1 << 20, (1 << 32) - 1, 1 << 32, (1<<32)*64 - 200, (1<<38) - 65, (1 << 38) + 5, (1 << 40) + 64*7 + 3, 1<<63 + 129, ^uint64(0) - 70000}
 	for _, ctr := range counters {
 		st := rbytes(r, 52)
 		binary.LittleEndian.PutUint64(st[44:], ctr)
 		ops := []c14Op{{Op: "restorebytes", State: hx(st)}, {Op: "read", N: 1}, {Op: "read", N: 64}, {Op: "store"}, {Op: "restore"}, {Op: "read", N: 65}, {Op: "store"}}
-		cs = append(cs, mkcase("restore-counter", c14In{hx(rbytes(r, 32)), "", ops}))
+		cs = append(cs, mkcase("restore-counter", c14In{Seed: hx(rbytes(r, 32)), Ops: ops}))
+	}
+	// lengths far from the accepted one, nil, and lengths that equal the accepted one only modulo 256 / 65536
+	ctorLens := [][2]int{{0, 0}, {-1, -1}, {16, 0}, {64, 12}, {32 + 256, 0}, {32 + 256, 12}, {32, 13}, {32, 24}, {32, 256}, {32, 256 + 5}, {32, 256 + 12}, {32 + 512, 256 + 3}}
+	if tier == "thorough" {
+		// (strings of 2^16 bytes and more overflow the stack of the Coq evaluator: not generated)
+		ctorLens = append(ctorLens, [2]int{32 + 1024, 3}, [2]int{32, 1024 + 4}, [2]int{32, 512}, [2]int{31 + 256, 1}, [2]int{33 + 256, 12})
+	}
+	for _, l := range ctorLens {
+		in := c14In{Ops: []c14Op{{Op: "read", N: 70}, {Op: "store"}}}
+		if l[0] >= 0 {
+			in.Seed, in.Cust = hx(rbytes(r, l[0])), hx(rbytes(r, l[1]))
+		} else {
+			in.NilArgs = true
+		}
+		cs = append(cs, mkcase("ctor-lengths-wide", in))
+	}
+	for _, l := range []int{0, 1, 44, 51, 53, 60, 104, 52 + 256, 52 + 512} {
+		// a running generator, a rejected restore, and more output of the (untouched) generator
+		ops := []c14Op{{Op: "read", N: 10 + l%60}, {Op: "restorebytes", State: hx(rbytes(r, l))}, {Op: "read", N: 65}, {Op: "store"}, {Op: "restore"}, {Op: "read", N: 3}}
+		cs = append(cs, mkcase("restore-rejected-then-use", c14In{Seed: hx(rbytes(r, 32)), Cust: hx(rbytes(r, l%13)), Ops: ops}))
+	}
+	// buffer sizes at narrowing boundaries and large in-place reads, nil buffers
+	big := []int{255, 256, 257, 1024, 4096}
+	if tier == "thorough" {
+		big = append(big, 511, 512, 513, 8191, 8192, 8193)
+	}
+	for i, n := range big {
+		ops := []c14Op{{Op: "read", N: i * 13 % 64}, {Op: "read", Nil: true}, {Op: "read", N: n}, {Op: "store"}, {Op: "restore"}, {Op: "read", N: 0}, {Op: "read", N: 66}, {Op: "store"}}
+		cs = append(cs, mkcase("read-sizes-wide", c14In{Seed: hx(rbytes(r, 32)), Cust: hx(rbytes(r, r.IntN(13))), Ops: ops}))
+	}
+	// fork: the original generator and generators restored from its checkpoints are used side by side
+	nfork := 10
+	if tier == "thorough" {
+		nfork = 150
+	}
+	for i := 0; i < nfork; i++ {
+		ops := []c14Op{{Op: "read", N: []int{0, 1, 63, 64, 65, 130}[i%6]}, {Op: "fork"}}
+		for j := 0; j < 3+r.IntN(4); j++ {
+			ops = append(ops, c14Op{Op: "read", N: sizes[r.IntN(len(sizes))]})
+			switch r.IntN(4) {
+			case 0:
+				ops = append(ops, c14Op{Op: "fork"})
+			case 1:
+				ops = append(ops, c14Op{Op: "store"})
+			}
+		}
+		ops = append(ops, c14Op{Op: "store"})
+		cs = append(cs, mkcase("fork", c14In{Seed: hx(rbytes(r, 32)), Cust: hx(rbytes(r, r.IntN(13))), Ops: ops}))
+	}
+	// derived samplers between raw reads: they consume the same stream, Store() must account for it
+	nder := 10
+	if tier == "thorough" {
+		nder = 150
+	}
+	for i := 0; i < nder; i++ {
+		ns := []int{1, 2, 3, 255, 256, 257, 1000, 65537, 1 << 33}
+		ops := []c14Op{{Op: "read", N: []int{0, 5, 64, 61}[i%4]}}
+		for j := 0; j < 2+r.IntN(3); j++ {
+			ops = append(ops, c14Op{Op: "derived", N: ns[r.IntN(len(ns))], K: r.IntN(40)}, c14Op{Op: "read", N: sizes[r.IntN(len(sizes))]}, c14Op{Op: "store"})
+			if r.IntN(3) == 0 {
+				ops = append(ops, c14Op{Op: "restore"})
+			}
+		}
+		cs = append(cs, mkcase("derived", c14In{Seed: hx(rbytes(r, 32)), Cust: hx(rbytes(r, r.IntN(13))), Ops: ops}))
 	}
 	// random mixes
 	for i := 0; i < nrand; i++ {
@@ -92,9 +160,15 @@ func c14Gen(tier string, r *rand.Rand) []Case {
 				ops = append(ops, c14Op{Op: "read", N: sz})
 			}
 		}
-		cs = append(cs, mkcase("random-mix", c14In{hx(rbytes(r, 32)), hx(rbytes(r, r.IntN(13))), ops}))
+		cs = append(cs, mkcase("random-mix", c14In{Seed: hx(rbytes(r, 32)), Cust: hx(rbytes(r, r.IntN(13))), Ops: ops}))
 	}
 	return cs
+}
+
+func c14Scribble(b []byte) {
+	for i := range b {
+		b[i] ^= 0x5A
+	}
 }
 
 func c14Run(c Case) (Result, error) {
@@ -116,21 +190,65 @@ func c14Run(c Case) (Result, error) {
 	var kept []keptState
 	produced := 0
 	rejected := false
-	prg, err := random.NewChacha20PRG(unhx(in.Seed), unhx(in.Cust))
+	viol := "" // first contract violation the runner can judge by itself
+	fail := func(f string, a ...any) {
+		if viol == "" {
+			viol = fmt.Sprintf(f, a...)
+		}
+	}
+	var seedB, custB []byte
+	if !in.NilArgs {
+		seedB, custB = unhx(in.Seed), unhx(in.Cust)
+	}
+	prg, err := random.NewChacha20PRG(seedB, custB)
+	if hx(seedB) != in.Seed || hx(custB) != in.Cust {
+		fail("NewChacha20PRG modified the caller's seed or customizer buffer")
+	}
+	// the caller owns these buffers: reusing them must not change the generator
+	c14Scribble(seedB)
+	c14Scribble(custB)
 	ctorOK := err == nil
 	var cur random.Rand
 	if ctorOK {
 		cur = prg
 	} else {
 		rejected = true
+		if prg != nil {
+			fail("NewChacha20PRG returned an error (%v) together with a non-nil generator", err)
+		}
 	}
+	// restore from a private copy of the state bytes, which is overwritten as soon as the call returned
+	restoreFrom := func(st []byte) (random.Rand, error) {
+		b := append([]byte{}, st...)
+		if st == nil {
+			b = nil
+		}
+		p2, err := random.RestoreChacha20PRG(b)
+		if hx(b) != hx(st) {
+			fail("RestoreChacha20PRG modified the state bytes it was given")
+		}
+		c14Scribble(b)
+		if err != nil {
+			if p2 != nil {
+				fail("RestoreChacha20PRG returned an error (%v) together with a non-nil generator", err)
+			}
+			return nil, err
+		}
+		return p2, nil
+	}
+	var sibs []random.Rand // generators restored from checkpoints of cur, at the same position as cur
 	for _, op := range in.Ops {
 		switch op.Op {
 		case "read":
 			if cur == nil {
 				continue
 			}
-			buf := make([]byte, op.N)
+			var buf []byte
+			if !op.Nil {
+				buf = make([]byte, op.N)
+			} else if op.N != 0 {
+				return Result{}, fmt.Errorf("nil read with a size")
+			}
 			for i := range buf {
 				buf[i] = 0xA5 // dirty buffer: Read must overwrite it
 			}
@@ -138,6 +256,19 @@ func c14Run(c Case) (Result, error) {
 			produced += op.N
 			obs = append(obs, obsOp{"read", hx(buf), true})
 			coqOps = append(coqOps, fmt.Sprintf("ORead %d %s", op.N, cqs(hx(buf))))
+			for k, sb := range sibs {
+				// the same bytes in two pieces (cut position differs per sibling)
+				cut := op.N / 2
+				if k%2 == 1 && op.N > 0 {
+					cut = 1
+				}
+				b2 := make([]byte, op.N)
+				sb.Read(b2[:cut])
+				sb.Read(b2[cut:])
+				if hx(b2) != hx(buf) {
+					fail("a generator restored from an earlier checkpoint and read up to the same offset returns %s where the original returns %s (read of %d bytes)", hx(b2), hx(buf), op.N)
+				}
+			}
 		case "store":
 			if cur == nil {
 				continue
@@ -146,28 +277,79 @@ func c14Run(c Case) (Result, error) {
 			kept = append(kept, keptState{st, hx(st)}) // NOT copied: a checkpoint must stay valid
 			obs = append(obs, obsOp{"store", hx(st), true})
 			coqOps = append(coqOps, "OStore "+cqs(hx(st)))
+			for _, sb := range sibs {
+				if s2 := sb.Store(); hx(s2) != hx(st) {
+					fail("Store() of a restored generator at the same offset is %s, of the original %s", hx(s2), hx(st))
+				}
+			}
 		case "restore":
 			if cur == nil {
 				continue
 			}
-			p2, err := random.RestoreChacha20PRG(cur.Store())
+			p2, err := restoreFrom(cur.Store())
 			obs = append(obs, obsOp{"restore", "", err == nil})
 			coqOps = append(coqOps, "ORestore "+cqbool(err == nil))
 			if err == nil {
 				cur = p2
 			}
 		case "restorebytes":
-			p2, err := random.RestoreChacha20PRG(unhx(op.State))
+			var stb []byte
+			if !op.Nil {
+				stb = unhx(op.State)
+			}
+			p2, err := restoreFrom(stb)
 			obs = append(obs, obsOp{"restorebytes", "", err == nil})
 			coqOps = append(coqOps, fmt.Sprintf("ORestoreBytes %s %s", cqs(op.State), cqbool(err == nil)))
 			if err == nil {
 				cur = p2
+				sibs = nil
 			} else {
 				rejected = true
 			}
+		case "fork":
+			// cur stays the ORIGINAL object; the restored one runs next to it from now on
+			if cur == nil {
+				continue
+			}
+			p2, err := restoreFrom(cur.Store())
+			if err != nil {
+				fail("RestoreChacha20PRG(Store()) failed: %v", err)
+				continue
+			}
+			sibs = append(sibs, p2)
+		case "derived":
+			// samplers consume the same stream: run them on cur and on a generator restored from the
+			// checkpoint taken just before; then tell the Coq side the position Store() now reports
+			if cur == nil {
+				continue
+			}
+			p2, err := restoreFrom(cur.Store())
+			if err != nil {
+				fail("RestoreChacha20PRG(Store()) failed: %v", err)
+				continue
+			}
+			draw := func(g random.Rand) string {
+				var sw [][2]int
+				v := g.UintN(uint64(op.N))
+				pm, e1 := g.Permutation(op.K)
+				sp, e2 := g.SubPermutation(op.K+3, op.K/2)
+				e3 := g.Shuffle(op.K/3, func(i, j int) { sw = append(sw, [2]int{i, j}) })
+				return fmt.Sprint(v, pm, e1, sp, e2, sw, e3, hx(g.Store()))
+			}
+			a, b := draw(cur), draw(p2)
+			if a != b {
+				fail("UintN(%d)/Permutation(%d)/SubPermutation/Shuffle on a generator and on one restored from its checkpoint differ: %s vs %s", op.N, op.K, a, b)
+			}
+			sibs = nil // siblings are not advanced through the samplers
+			st := cur.Store()
+			obs = append(obs, obsOp{"derived", hx(st), true})
+			coqOps = append(coqOps, fmt.Sprintf("ORestoreBytes %s true", cqs(hx(st))))
 		default:
 			return Result{}, fmt.Errorf("unknown op %q", op.Op)
 		}
+	}
+	if viol != "" {
+		return Result{}, implViolation("%s", viol)
 	}
 	// every state returned by Store() is a value: later calls on the generator must not change it
 	for k, ks := range kept {
